@@ -212,7 +212,11 @@ func (t *tx) write(in *instance, o gate2.Op, v string) error {
 	case "cell":
 		r.cell = v
 	case "map":
-		r.idx[idxKey(o)] = v
+		if idxKey(o) == "" { // whole-variable write of a function-valued variable: two fresh tags
+			r.idx["1"], r.idx["2"] = o.V+"a", o.V+"b"
+		} else {
+			r.idx[idxKey(o)] = v
+		}
 	case "out":
 		t.pend[in.name] = append(t.pend[in.name], v)
 	}
@@ -242,6 +246,7 @@ func (t *tx) commit() map[string]*mres {
 	for name := range t.wrote {
 		if t.m[name].persist {
 			t.m[name].stored = t.m[name].cell
+			t.m[name].wroteEver = true
 		}
 	}
 	return t.m
@@ -463,7 +468,7 @@ func runCase(cs caseSpec, env *wenv, st *runStats) (outcome string, fail *failur
 			if err != nil {
 				return &failure{in.kind + "/" + kindOfFault + "/unreadable-" + sub, fmt.Sprintf("%s: cannot read back %s (%s): %v  | %s", when, in.name, in.kind, err, cs)}
 			}
-			if got != want {
+			if !acceptable(got, want) {
 				return &failure{in.kind + "/" + kindOfFault + "/state-" + sub, fmt.Sprintf("%s: observable state of %s (%s) is %s, the transactional reference gives %s  | %s", when, in.name, in.kind, got, want, cs)}
 			}
 		}
@@ -703,14 +708,16 @@ func families(thorough bool) []bounds {
 	tcp := bounds{Name: "tcp-pair", Kinds: []string{"tcpout", "reflocal", "local"}, MinKinds: 2, MaxKinds: 2, MaxSec: 2, MaxOps: 2, MaxTotal: 3, MustHave: []string{"tcpout"}}
 	// a single-node CRDT (grow-only counter) with a scripted remote peer that asks for the resource's state over its
 	// RPC listener in the middle of every attempt
+	// Persistent over a function-valued variable: indexed and whole writes, the database content is part of the state
+	pfn := bounds{Name: "persistent-indexed", Kinds: []string{"persistent-fn", "persistent-shared-fn", "local"}, MinKinds: 2, MaxKinds: 2, MaxSec: 2, MaxOps: 2, MaxTotal: 3, MustHave: persistentFnKinds}
 	crdt := bounds{Name: "crdt-remote", Kinds: []string{"crdt", "reflocal", "local"}, MinKinds: 2, MaxKinds: 2, MaxSec: 2, MaxOps: 2, MaxTotal: 3, MustHave: []string{"crdt"}}
 	if !thorough {
-		return []bounds{tcp, crdt, q, d}
+		return []bounds{tcp, crdt, pfn, q, d}
 	}
 	d.MaxKinds = 3
 	q.MaxSec, q.MaxTotal = 3, 4
 	slow := bounds{Name: "disk", Kinds: append(append([]string{}, slowKinds...), "local", "incmap", "inchan", "outchan"), MinKinds: 2, MaxKinds: 2, MaxSec: 2, MaxOps: 2, MaxTotal: 3, MustHave: slowKinds}
-	return []bounds{tcp, crdt, slow, d, q}
+	return []bounds{tcp, crdt, pfn, slow, d, q}
 }
 
 func TestCheck(t *testing.T) {
